@@ -18,9 +18,20 @@ TEMPLATES = [
 ]
 
 
-def wl(words):
-    """word list as the notebooks write it"""
-    return ' '.join(w if w else 'ε' for w in sorted(words, key=lambda w: (len(w), w)))
+def wl(words, rng=None):
+    """word list as the notebooks write it; with rng the empty word is written in one of its legal spellings
+    (ε, _, both, repeated) and the order is shuffled"""
+    ws = sorted(words, key=lambda w: (len(w), w))
+    if rng is None:
+        return ' '.join(w if w else 'ε' for w in ws)
+    out = []
+    for w in ws:
+        if w:
+            out.append(w)
+        else:
+            out.extend(rng.choice([['ε'], ['_'], ['ε', '_'], ['_', 'ε', 'ε'], ['ε', 'ε']]))
+    rng.shuffle(out)
+    return ' '.join(out)
 
 
 def layout(rng, hostile=True):
@@ -211,16 +222,101 @@ def make_instance(rng, template, tmpdir, tag):
     return {'template': template, 'settings': s, 'refs': refs}
 
 
+# ---------------------------------------------------------------- batch route
+def to_batch(rng, inst, tmpdir, tag):
+    """rewrites an instance for the generator's command line route: some settings become '%% key = value' header lines
+    of the reference file, the others lines of a batch paragraph; values may be empty, the question refers to
+    @language@.  Returns the settings the generator has to derive from it (own reading of the key = value format:
+    value = rest of the line, stripped; paragraph lines win over header lines; @key@ replaced by that key's value)."""
+    s = dict(inst['settings'])
+    name = '%s_%s_batch' % (tag, inst['template'])
+    s['language'] = rng.choice(['L', 'L_1', '\\lbrace a^n b^n \\mid n \\geq 0 \\rbrace'])
+    question = rng.choice(['Give the answer for $@language@$.', 'Give the answer.', 'Describe @language@ over @alphabet@'])
+    s['question'] = question
+    for k in ('accepted', 'rejected'):
+        if k not in s and rng.random() < 0.5:
+            s[k] = ''                                    # nothing to accept / reject: a legal, empty list
+    if rng.random() < 0.5:
+        s['remark'] = rng.choice(['', 'no remark'])      # a key no template uses
+    keys = [k for k in s if k not in ('templatefile', 'inputfile', 'inputfile1', 'inputfile2')]
+    for k in ('length', 'states'):
+        if s.get(k) == {'length': '8', 'states': '0'}[k] and rng.random() < 0.5:
+            keys.remove(k)                               # left to the generator's default
+    rng.shuffle(keys)
+    in_file = [k for k in keys if 'inputfile' in s and rng.random() < 0.55]
+    in_par = [k for k in keys if k not in in_file]
+    both = [k for k in in_file if rng.random() < 0.15]   # given twice: the paragraph has priority
+
+    def line(k, v, prefix):
+        return '%s%s%s=%s%s%s' % (prefix, k, rng.choice(['', ' ', '  ']), rng.choice(['', ' ', '  ']) if v else rng.choice(['', ' ']), v, rng.choice(['', ' ', '']))
+    expected = {'length': '8', 'states': '0'}
+    if in_file:
+        with open(s['inputfile'], encoding='utf8') as f:
+            body = f.read()
+        head = []
+        for k in in_file:
+            v = 'overridden' if k in both and k not in ('length', 'states') else s[k]
+            head.append(line(k, v, rng.choice(['%% ', '%%', '%%  '])))
+            expected[k] = v
+        sep = rng.choice(['\n', '\n\n', '\n\n\n'])
+        with open(s['inputfile'], 'w', encoding='utf8') as f:
+            f.write('\n'.join(head) + sep + body)
+        # header lines the renderer of the reference object wrote itself come later in the file: the last one counts
+        for ln in body.split('\n'):
+            m = re.search(r'%%\s*(\w+?)\s*=(.*)', ln)
+            if m:
+                expected[m.group(1)] = m.group(2).strip()
+    par = []
+    for k in in_par + both:
+        par.append(line(k, s[k], rng.choice(['', '', '  '])))
+        expected[k] = s[k]
+    for k in ('templatefile', 'inputfile', 'inputfile1', 'inputfile2'):
+        if k in s:
+            par.insert(rng.randrange(len(par) + 1), line(k, s[k], ''))
+            expected[k] = s[k]
+    par.insert(rng.randrange(len(par) + 1), line('name', name, ''))
+    expected['name'] = name
+    text = '\n'.join(par)
+    before = rng.choice(['', '% a comment\n', '\n'])
+    after = rng.choice(['', '\n', '\n\n\n'])
+    bf = os.path.join(tmpdir, '%s_batch.txt' % tag)
+    with open(bf, 'w', encoding='utf8') as f:
+        f.write(before + text + after)
+    for k in list(expected):
+        for k2 in ('language', 'alphabet'):
+            if k != k2 and ('@%s@' % k2) in expected[k] and k2 in expected:
+                expected[k] = expected[k].replace('@%s@' % k2, expected[k2])
+    inst = dict(inst, settings=s, batch={'file': bf, 'name': name, 'paragraph': text, 'expected': expected})
+    return inst
+
+
 # ---------------------------------------------------------------- notebook route
 def run_notebook(mk, inst, tmpdir, tag, with_answers=True):
     """real make_notebook on the real template, then exec of the produced code cells.
     returns (cells, error): cells = list of dict(source, stdout, is_check, exception)"""
     out = os.path.join(tmpdir, '%s_%s.ipynb' % (tag, inst['template']))
-    settings = dict(mk.default_notebook_settings)
-    settings.update(inst['settings'])
     buf0 = io.StringIO()
-    with contextlib.redirect_stdout(buf0):
-        mk.make_notebook(out, settings, with_answers)
+    if inst.get('batch') is not None:
+        # the generator's own command line route: batch file -> read_paragraphs -> parse_paragraph -> make_notebook
+        import sys
+        b = inst['batch']
+        out = os.path.join(tmpdir, b['name'] + '.ipynb')
+        if os.path.exists(out):
+            os.unlink(out)
+        argv = sys.argv
+        sys.argv = ['make_notebook.py', b['file'], '-o', tmpdir] + (['--with-answers'] if with_answers else [])
+        try:
+            with contextlib.redirect_stdout(buf0):
+                mk.main()
+        finally:
+            sys.argv = argv
+        if not os.path.exists(out):
+            return [], buf0.getvalue() + '\nError: no notebook was written'
+    else:
+        settings = dict(mk.default_notebook_settings)
+        settings.update(inst['settings'])
+        with contextlib.redirect_stdout(buf0):
+            mk.make_notebook(out, settings, with_answers)
     with open(out, encoding='utf8') as f:
         nb = json.load(f)
     ns = {'__name__': '__vt_notebook__'}
